@@ -259,9 +259,15 @@ def class_src(c, all_specs):
             L += _recognize_src(name, c['recognize'])
         return L
     if kind == 'enum':
-        L.append('class %s(%s):' % (name, ', '.join(mix + ['enum.Enum'])))
-        for i, m in enumerate(c['members']):
-            L.append('    %s = %d' % (m, i + 1))
+        if c.get('str_mixin'):
+            L.append('class %s(%s):' % (name, ', '.join(mix + ['str', 'enum.Enum'])))
+            for i, m in enumerate(c['members']):
+                # values deliberately differ from the names and cross over
+                L.append('    %s = %r' % (m, 'val_' + c['members'][(i + 1) % len(c['members'])]))
+        else:
+            L.append('class %s(%s):' % (name, ', '.join(mix + ['enum.Enum'])))
+            for i, m in enumerate(c['members']):
+                L.append('    %s = %d' % (m, i + 1))
         if c.get('sweeten') is not None:
             L += _sweeten_src(name, c['sweeten'])
         if c.get('savorize') is not None:
